@@ -85,7 +85,8 @@ static int cmp_shape2(int x, int y)
     }
 }
 static unsigned dtor_calls = 0;
-static void dtor_fn(void *) { ++dtor_calls; }
+static std::vector<void *> dtor_seen; // what the element destructor was called with, in order
+static void dtor_fn(void *p) { ++dtor_calls; dtor_seen.push_back(p); }
 
 static inline size_t kpos(Q const &q) { return (g_key_hi && q.siz >= 2) ? 1 : 0; }
 static std::vector<uint8_t> mk(Q &q, uint8_t key)
@@ -542,7 +543,16 @@ static void run_history(Tape &t, Ctx &cx, uint64_t fail_at, int mode, uint64_t *
                 uint64_t fb = g_shim.faults;
                 bool use_dtor = t.coin();
                 cx.log("drop (%zu elements)\n", q.m.size());
+                dtor_seen.clear();
                 int rc = a_que_drop(q.q, use_dtor ? dtor_fn : nullptr);
+                if (rc == A_SUCCESS && use_dtor)
+                {
+                    // the element destructor is handed every enqueued element - the element, not its node (it is also run on
+                    // the elements of recycled nodes; nothing the statement says decides whether it should be)
+                    std::vector<void *> got = dtor_seen;
+                    std::sort(got.begin(), got.end());
+                    for (auto const &e : q.m) { VP_CHECK(cx, std::binary_search(got.begin(), got.end(), (void *)e.addr), "que:drop_dtor_arguments", "drop of %zu elements with a destructor: the element at %p was not handed to it (%zu calls)", q.m.size(), (void *)e.addr, dtor_seen.size()); }
+                }
                 if (rc != A_SUCCESS)
                 {
                     VP_CHECK(cx, rc == A_OMEMORY, "que:drop_return", "drop returned %d", rc);
@@ -565,7 +575,17 @@ static void run_history(Tape &t, Ctx &cx, uint64_t fail_at, int mode, uint64_t *
                 uint64_t fb = g_shim.faults;
                 size_t oldn = q.m.size();
                 cx.log("setz(%zu) from %zu (%zu elements)\n", ns, q.siz, oldn);
-                int rc = a_que_setz(q.q, ns, nullptr);
+                bool sz_dtor = (r.opno & 1) != 0;
+                dtor_seen.clear();
+                std::vector<void *> sz_want;
+                for (auto const &e : q.m) { sz_want.push_back(e.addr); }
+                int rc = a_que_setz(q.q, ns, sz_dtor ? dtor_fn : nullptr);
+                if (rc == A_SUCCESS && sz_dtor)
+                {
+                    std::vector<void *> got = dtor_seen;
+                    std::sort(got.begin(), got.end());
+                    for (void *w : sz_want) { VP_CHECK(cx, std::binary_search(got.begin(), got.end(), w), "que:setz_dtor_arguments", "setz on %zu elements with a destructor: the element at %p was not handed to it (%zu calls)", sz_want.size(), w, dtor_seen.size()); }
+                }
                 if (rc != A_SUCCESS)
                 {
                     VP_CHECK(cx, rc == A_OMEMORY, "que:setz_return", "setz returned %d", rc);
@@ -589,8 +609,16 @@ static void run_history(Tape &t, Ctx &cx, uint64_t fail_at, int mode, uint64_t *
     for (int k = 0; k < 2; ++k)
     {
         Q &q = r.qs[k];
+        dtor_seen.clear();
         if (q.heap) { a_que_die(q.q, k ? dtor_fn : nullptr); }
         else { a_que_dtor(q.q, k ? dtor_fn : nullptr); }
+        if (k && g_shim.faults == 0)
+        {
+            // destruction with an element destructor hands it every element that was still enqueued
+            std::vector<void *> got = dtor_seen;
+            std::sort(got.begin(), got.end());
+            for (auto const &e : q.m) { VP_CHECK(cx, std::binary_search(got.begin(), got.end(), (void *)e.addr), "que:dtor_arguments", "destroying a queue of %zu elements with a destructor: the element at %p was not handed to it (%zu calls)", q.m.size(), (void *)e.addr, dtor_seen.size()); }
+        }
         q.q = nullptr;
     }
     shim_check_empty(cx, "after destroying the queues");
